@@ -356,3 +356,61 @@ class Sym:
         if type(op) not in table:
             raise AnalysisError(f"guard language: unsupported ordering operator in {U(node)!r}")
         return table[type(op)]
+
+
+class _NeedDecision(Exception):
+    def __init__(self, key):
+        self.key = key
+
+
+class ForkInterp(Interp):
+    """Interp whose undetermined ``if`` tests are free: ``explore`` forks on each of them (demonic choice).
+
+    A test counts as undetermined when its evaluation meets a value with no declared domain; the test text is the
+    decision key, so the same test decides the same way along one path.
+    """
+
+    def __init__(self, env, oracle, **kw):
+        super().__init__(env, **kw)
+        self.oracle = oracle
+
+    def stmt(self, st):
+        if isinstance(st, ast.If):
+            try:
+                val = self.ev(st.test)
+                if isinstance(val, Unknown):
+                    raise AnalysisError("undetermined")
+                dec = bool(val)
+            except AnalysisError as exc:
+                if not any(s in str(exc) for s in ("no declared domain", "undetermined", "cannot index")):
+                    raise
+                key = U(st.test)
+                if key not in self.oracle:
+                    raise _NeedDecision(key) from None
+                dec = self.oracle[key]
+            self.run(st.body if dec else st.orelse)
+            return
+        super().stmt(st)
+
+
+def explore(stmts, make_env, limit=256, **kw):
+    """Run ``stmts`` on every path through their undetermined tests.  Yields (decisions, interp, flow-kind or None).
+
+    ``make_env()`` must build a fresh environment (object models are mutated by a run).
+    """
+    work = [{}]
+    n = 0
+    while work:
+        oracle = work.pop()
+        n += 1
+        if n > limit:
+            raise AnalysisError("explore: more than %d paths through undetermined tests" % limit)
+        it = ForkInterp(make_env(), oracle, **kw)
+        try:
+            it.run(stmts)
+            yield oracle, it, None
+        except _NeedDecision as nd:
+            work.append({**oracle, nd.key: True})
+            work.append({**oracle, nd.key: False})
+        except Flow as fl:
+            yield oracle, it, fl.kind
